@@ -37,9 +37,11 @@ theorem schema_enums_ok : enumsOk schema = true := by decide +kernel
 /-- class names are strictly increasing, hence pairwise distinct (lookup by tag is unambiguous) -/
 theorem schema_names_sorted : namesSorted (schema.classes.map (·.name)) = true := by decide +kernel
 
-/-- classes for which the round-trip premises fail (recorded known finding: list block interleaved) -/
+/-- classes for which the round-trip premises fail: the recorded known finding (list block interleaved), and
+    the abstract base class `ElementList` itself, which declares no list element (it has no instances) -/
 def roundTripExceptions : List Str :=
-  [['T','A','X','1','0','9','9','I','N','T','_','V','1','0','0']]
+  [['T','A','X','1','0','9','9','I','N','T','_','V','1','0','0'],
+   ['E','l','e','m','e','n','t','L','i','s','t']]
 
 /-- every other class satisfies the decidable premises of the aggregate round-trip theorem -/
 theorem schema_roundTripOk :
@@ -53,6 +55,12 @@ theorem schema_clsWF (c : Cls) (hc : c ∈ schema.classes) (hx : c.name ∉ roun
   have hx' : roundTripExceptions.contains c.name = false := by simpa using hx
   rw [hx', Bool.false_or] at this
   exact roundTripOk_clsWF schema c this
+
+/-- every class's rename hooks (`groom` / `ungroom`) are absent or an inverse pair around a data element -/
+theorem schema_groomOk : schema.classes.all groomOkB = true := by decide +kernel
+
+theorem gen_groomOk (c : Cls) (hc : c ∈ schema.classes) : Agg.GroomOk c :=
+  groomOkB_groomOk c ((List.all_eq_true.mp schema_groomOk) c hc)
 
 /-- class names and upper-cased attribute names of every concrete class are legal tags that
     `ET.tostring(method="html")` does not treat specially, and no element attribute upper-cases into its own
